@@ -77,7 +77,14 @@ CLAIM = {
             'model is tied to multiuser.py / iabase.py / misc.py by correspondence within 1e-9 (1+SINR) on both '
             'implementations and every code path, on fresh objects and after every step of seeded lives of one '
             're-used channel object + solver (the model has no state: reports depend on the current inputs only), '
-            'with noise variance / external power / transmit powers given in every numeric type.',
+            'with noise variance / external power / transmit powers given in every numeric type. Second tie for the '
+            'FORMULAS: harness/gen/c11.py re-emits on every run, from the current source, the expression trees of '
+            '_calc_Bkl_cov_matrix_first_part / _second_part / _all_l and _calc_SINR_k of the channel object, of the '
+            'joint-processing _impl twins and of the IA solver (Generated/C11Formulas.lean, primitive matrix '
+            'operations only; helpers, lambdas and bound methods inlined; np.dot / .dot / @, any order of conj and '
+            'transpose, accumulation loop / sum(generator) are the same tree); theorem '
+            'generated_formulas_match_model: every regenerated tree equals the model\'s definition for all arguments '
+            'and every scalar type (rfl, no algebraic law), the solver trees reading full_F only.',
     'note': 'trusted: binary64 rounding (compared within 1e-9 relative to the forward-error scale (1+SINR), the '
             'denominator being computed as total power minus own stream), np.linalg.solve in full_W_H (its result is '
             'an input of the model, contract checked per case; the theorems hold for every filter matrix), the '
@@ -3272,7 +3279,7 @@ def check(ctx):
                 'non-trivial = distinct (layout, class '
                 'of channel object, generator kind, noise kind, path-loss presence, index, code path)')
     quick = ctx.tier == 'quick'
-    core.prove(ctx, MODULE, generated=[], drivers=[DRIVER], scratch=ctx.scratch)
+    core.prove(ctx, MODULE, generated=['C11Formulas'], drivers=[DRIVER], scratch=ctx.scratch)
     ctx.required_branches = ['ic', 'jp', 'solver', 'extint', 'plain', 'noise:none', 'noise:zero', 'noise:pos',
                              'pathloss', 'no-pathloss', 'zero-division', 'K=1', 'K>=3', 'multi-stream',
                              'multi-ext-source', 'unequal-power', 'pe:default', 'pe:zero', 'pe:pos', 'capacity',
